@@ -1,5 +1,6 @@
 import Req.Driver.Proto
 import Req.C02.RespSM
+import Req.C02.H1Body
 /-! Driver lanes of C02. -/
 namespace Req.Driver.L.C02
 open Req.Proto Req.C02
@@ -64,8 +65,63 @@ def laneOps : List String → String
     | _, _, _, _, _ => "bad-op"
   | _ => "bad-op"
 
+/-! ### shared canonical forms -/
+
+def bytesLe : Bytes → Bytes → Bool
+  | [], _ => true
+  | _ :: _, [] => false
+  | a :: as, b :: bs => if a < b then true else if b < a then false else bytesLe as bs
+
+def insKV (x : Bytes × Bytes) : List (Bytes × Bytes) → List (Bytes × Bytes)
+  | [] => [x]
+  | y :: ys => if bytesLe y.1 x.1 then y :: insKV x ys else x :: y :: ys
+
+/-- stable sort by key -/
+def sortKV (l : List (Bytes × Bytes)) : List (Bytes × Bytes) := l.foldl (fun acc x => insKV x acc) []
+
+def kvStr (l : List (Bytes × Bytes)) : String :=
+  if l.isEmpty then "-" else
+  ",".intercalate ((sortKV l).map fun (k, v) => encodeHex k ++ ":" ++ encodeHex v)
+
+def ioErrStr : Option IOErr → String
+  | none => "ok"
+  | some .eof => "eof" | some .reset => "reset" | some .unexpectedEOF => "unexpectedEOF"
+  | some .bufferFull => "bufferFull" | some .malformedChunk => "malformedChunk"
+  | some .lineTooLong => "lineTooLong" | some .invalidChunkLen => "invalidChunkLen"
+  | some .chunkTooLarge => "chunkTooLarge" | some .trailerEOF => "trailerEOF"
+  | some .longTrailer => "longTrailer" | some .badTrailer => "badTrailer"
+  | some .readAfterClose => "readAfterClose" | some .stuck => "stuck"
+
+def parseNetEnd : String → Option NetEnd
+  | "eof" => some .eof
+  | "reset" => some .reset
+  | _ => none
+
+def parseFraming (s : String) : Option Framing :=
+  if s == "chunked" then some .chunked
+  else if s == "close" then some .close
+  else if s.startsWith "len:" then (s.drop 4).toNat?.map Framing.length
+  else none
+
+/-- `c02h1body <framing> <cap> <segs> <fin> <reads>` →
+`n=<len,len,…> err=<e> data=<hex> trailer=<kv> rem=<unread wire bytes>` -/
+def laneH1Body : List String → String
+  | [fr, cap, segs, fin, reads] =>
+    match parseFraming fr, cap.toNat?, decodeList segs, parseNetEnd fin, decodeNatList reads with
+    | some fr, some cap, some segs, some fin, some reads =>
+      let bd := H1Body.new fr (Bufio.new cap { segs := segs, fin := fin })
+      let (rs, bd') := bd.runReads reads
+      let lastErr := match rs.getLast? with | some (_, e) => e | none => none
+      "n=" ++ encodeNatList (rs.map fun (d, _) => d.length) ++ " err=" ++ ioErrStr lastErr ++
+        " data=" ++ encodeHex (rs.map (·.1)).flatten ++
+        " trailer=" ++ kvStr (match bd'.trailer with | some t => t | none => []) ++
+        " rem=" ++ (if lastErr == some .badTrailer then "?" else toString bd'.br.rem.length)
+    | _, _, _, _, _ => "bad-op"
+  | _ => "bad-op"
+
 def lanes : List (String × (List String → String)) := [
-  ("c02ops", laneOps)
+  ("c02ops", laneOps),
+  ("c02h1body", laneH1Body)
 ]
 
 end Req.Driver.L.C02
